@@ -84,6 +84,9 @@ class Module:
             self.tree = ast.parse(src)
         except SyntaxError as e:
             raise AnalysisError(f"{rel}: does not parse: {e}")
+        # `match` statements are read as the if / elif chains they stand for (tsa/desugar.py)
+        from .desugar import desugar
+        self.tree, self.matches_rewritten, self.matches_left = desugar(self.tree)
         self.functions: dict[str, FuncInfo] = {}
         self.classes: dict[str, ClassInfo] = {}
         self.imports: dict[str, tuple[str, Optional[str]]] = {}   # local -> (module, name|None)
